@@ -60,3 +60,10 @@ func init() {
 	prop("C03", "C03-R1", "C03-R2", "C03-R3", "C02-R3")
 	prop("C12", "C12-R1", "C12-R2", "C12-R3")
 }
+
+func init() {
+	prop("C16", "C16-R3")
+	prop("C12", "C12-R4")
+	prop("C17", "C17-R1", "C17-R2")
+	prop("C19", "C19-R1", "C13-R1", "C16-R3", "C12-R4", "C17-R2")
+}
